@@ -96,3 +96,53 @@ def _build_infra(eng, tier):
                  # it stops early only right after a step that reported no modification
                  "len(g_flags) == old(self.steps) or old(self.steps) < 0 or (len(g_flags) >= 1 and g_flags[len(g_flags) - 1] == 0) or len(g_flags) == 0"],
         raises_default=[]))
+
+
+def add_shape_inference_failure_target(eng):
+    """ShapeInferencePass.call: `shape inference when inference fails leave[s] the model exactly unchanged`.  With call_onnx_api
+    used through its (proved) contract - a failing call leaves the model as it was -, every path on which the ONNX call
+    failed returns modified=False and contains no IR store and no IR-mutating call, before or after the attempt (effect
+    obligation in lenient mode; the ghost flag g_failed is raised by the model of the failing call)."""
+    from pyvc.core import Exc
+    from pyvc.types import VBool, VFunc, VOpaque
+    SI = "onnx_ir.passes.common.shape_inference"
+    eng.declare_class_from_source(SI, "ShapeInferencePass", fields={"check_type": BOOL, "strict_mode": BOOL, "data_prop": BOOL})
+
+    def api(e, p, args, kwargs, node):
+        q = p.copy()
+        q.frames[0].locals["g_failed"] = VBool(True)
+        return [(p, VOpaque("inferred proto")), (q, Exc("AnyException", f"L{node.lineno}:call_onnx_api"))]
+
+    def merge(e, p, args, kwargs, node):
+        # merging the inferred shapes writes into the model (and reports whether it did): an IR mutation
+        import z3
+        from pyvc.types import fresh_name
+        p.ghost["$ir_dirty"] = f"_merge_func at L{node.lineno}"
+        return [(p, VBool(z3.Bool(fresh_name("merged")))), (p.copy(), Exc("AnyException", f"L{node.lineno}:_merge_func"))]
+
+    def setup(e, p, env):
+        e.lenient = True
+        e.functions["onnx_ir.passes.common._c_api_utils.call_onnx_api"] = FnDecl("call_onnx_api", "builtin", impl=api)
+        e.functions[f"{SI}._merge_func"] = FnDecl("_merge_func", "builtin", impl=merge)
+    eng.add_target(Target("ShapeInferencePass.call[failure]", mod=SI, qual="ShapeInferencePass.call", self_cls="ShapeInferencePass",
+        params=dict(model=TRef("Model")), setup=setup, requires=["nonnull(model)"],
+        ghost_init="g_failed = False",
+        ensures=["implies(g_failed, result.modified == False and result.model is model and ir_clean())"],
+        raises_default=[], assert_mode="raise", dead=["return onnx.shape_inference.infer_shapes("]))
+    # CheckerPass.call: an analysis pass - on every exit (the checker accepted the model, or the call raised) no IR store and
+    # no IR-mutating call has happened, and a normal return reports modified=False
+    CK = "onnx_ir.passes.common.onnx_checker"
+    eng.declare_class_from_source(CK, "CheckerPass", fields={"full_check": BOOL, "skip_opset_compatibility_check": BOOL, "check_custom_domain": BOOL})
+    eng.add_target(Target("CheckerPass.call[effects]", mod=CK, qual="CheckerPass.call", self_cls="CheckerPass",
+        params=dict(model=TRef("Model")), setup=setup, requires=["nonnull(model)"],
+        ghost_init="g_failed = False",
+        ensures=["result.modified == False and result.model is model and ir_clean()"],
+        raises_default=["ir_clean()"], assert_mode="raise", dead=["onnx.checker.check_model("]))
+
+
+_build14b = build
+
+
+def build(eng, tier):
+    _build14b(eng, tier)
+    add_shape_inference_failure_target(eng)
